@@ -96,10 +96,10 @@ Definition all_of_class (g : graph) (c : cls) : list N :=
   map nid (filter (fun x => cls_eqb (ncls x) c) (gnodes g)).
 
 (* ---- state / exception monad; the trace records every deleted id ---- *)
-Inductive exn := ETopology | EQuery | EAssert | EIndex | EAmbig.
+Inductive exn := ETopology | EQuery | EAssert | EIndex | EAmbig | EType.
 Definition exn_eqb (a b : exn) : bool :=
   match a, b with
-  | ETopology, ETopology | EQuery, EQuery | EAssert, EAssert | EIndex, EIndex | EAmbig, EAmbig => true
+  | ETopology, ETopology | EQuery, EQuery | EAssert, EAssert | EIndex, EIndex | EAmbig, EAmbig | EType, EType => true
   | _, _ => false
   end.
 
@@ -126,6 +126,10 @@ Definition m_delete (n : N) : M unit :=
 Definition need_node (n : N) : M node :=
   m_read (fun g => match find_node g n with Some x => inl x | None => inr EQuery end).
 Definition guard (b : bool) (e : exn) : M unit := if b then ret tt else fail e.
+(* get_first_neighbor / get_first_and_second_neighbor / get_nodes_on_shortest_path extract the graph first; when it
+   has no node at all they raise PropertyGraphQueryException WITHOUT its required node_id argument: a TypeError *)
+Definition m_nonempty : M unit :=
+  m_read (fun g => match gnodes g with [] => inr EType | _ => inl tt end).
 
 Fixpoint for_each {A} (f : A -> M unit) (l : list A) : M unit :=
   match l with
